@@ -192,6 +192,10 @@ def finish_check(pid, tier, prop, base_seed, cfg, aggs, dead, t0, nworkers, scra
         else:
             new_items.append(item)
     # one replay per violation kind (plus up to 2 more distinct sites) keeps minimisation bounded
+    # every listed (status=known) finding of this property is named on every run, reached or not
+    for k in known:
+        if k.get('status') == 'known' and k.get('property') == pid and k['id'] not in reported_known:
+            lines.append(f"KNOWN-FINDING: property={pid} {k['description']} (not reached by this run)")
     # one replay per violation class (kind + site), at most 3 per kind and 8 in total: keeps minimisation bounded
     seen_kinds = {}
     to_report = []
